@@ -638,6 +638,15 @@ func (c *Compiler) structCode(typ *runtime.Type, isPtr bool) (*StructCode, error
 
 	fieldNum := typ.NumField()
 	tags := c.typeToStructTags(typ)
+	// the names this struct's own fields take: an embedded struct contributes
+	// its fields, not a member named after its type
+	ownTags := make(runtime.StructTags, 0, len(tags))
+	for _, tag := range tags {
+		if tag.Field.Anonymous && !tag.IsTaggedKey && toElemType(runtime.Type2RType(tag.Field.Type)).Kind() == reflect.Struct {
+			continue
+		}
+		ownTags = append(ownTags, tag)
+	}
 	fields := []*StructFieldCode{}
 	for i, tag := range tags {
 		isOnlyOneFirstField := i == 0 && fieldNum == 1
@@ -667,7 +676,7 @@ func (c *Compiler) structCode(typ *runtime.Type, isPtr bool) (*StructCode, error
 		if field.isAnonymous {
 			structCode := field.getAnonymousStruct()
 			if structCode != nil {
-				structCode.removeFieldsByTags(tags)
+				structCode.removeFieldsByTags(ownTags)
 				if c.isAssignableIndirect(field, isPtr) {
 					if indirect {
 						structCode.isIndirect = true
